@@ -83,6 +83,20 @@ Proof.
 Qed.
 Print Assumptions C08_generated_recycle_fresh.
 
+(* The whole allocator as the source has it: unregister_gradient (inline top-of-stack branch + unregister_gradient_not_top)
+   and unregister_gradients, with the cached-gap test, the linear search, the insertion of a new gap and the two merges
+   re-assembled from the expressions read from Stack.cpp, are the model's unregisterN for every state and argument. *)
+Theorem C08_generated_unregister_paths : forall s idx n,
+  gen_unregister1 s idx = unregisterN s idx 1 /\ gen_unregisterN s idx n = unregisterN s idx n.
+Proof. intros s idx n. exact (conj (gen_unregister1_eq s idx) (gen_unregisterN_eq s idx n)). Qed.
+Print Assumptions C08_generated_unregister_paths.
+
+(* ... hence the partition invariant, for every history run with the functions read from the source *)
+Theorem C08_generated_inv_every_history : forall ops,
+  gen_run ops = run ops /\ Inv (fst (gen_run ops)) (snd (gen_run ops)).
+Proof. intros ops. split; [exact (gen_run_eq ops)|]. rewrite gen_run_eq. exact (run_inv ops). Qed.
+Print Assumptions C08_generated_inv_every_history.
+
 (* non-vacuity: the generated paths on a state with two gaps - shrink of the first gap, exact fit, no fit,
    top-of-stack release that swallows the last gap *)
 Example C08_example_generated :
@@ -91,5 +105,8 @@ Example C08_example_generated :
   gen_registerN s 3 = (mk 8 9 6 [(6,7)] (Some 0%nat), 0) /\
   gen_registerN s 4 = (mk 12 12 7 [(0,2);(6,7)] (Some 1%nat), 8) /\
   gen_unregister1_top (mk 9 9 3 [(0,2);(6,7)] (Some 1%nat)) 8 = Some (mk 6 9 2 [(0,2)] None) /\
-  gen_unregister1_top s 3 = None.
+  gen_unregister1_top s 3 = None /\
+  gen_unregister1 s 3 = mk 8 9 2 [(0,3);(6,7)] (Some 0%nat) /\
+  gen_unregisterN s 3 3 = mk 8 9 0 [(0,7)] (Some 0%nat) /\
+  gaps (fst (gen_run [ORegN 3; OReg1; ORegN 2; OUnreg 1; ORegN 2; OUnreg 1; OReg1; ONewRec; OUnreg 2])) = [(0,2);(4,5)].
 Proof. vm_compute. repeat split. Qed.
